@@ -215,6 +215,16 @@ func parseFamilies(tier string) []family {
 		}
 		return parseInput{Entry: "globals", Family: "globals", Text: text}
 	}})
+	// (9) files that begin with a byte order mark or other invisible prefixes, and expressions likewise
+	prefixes := []string{"\xef\xbb\xbf", "\xef\xbb\xbf\xef\xbb\xbf", "\xef\xbb", "\xff\xfe", "\xfe\xff", "\u200b", "\u2060", "\x00", "\r\n\xef\xbb\xbf", " \xef\xbb\xbf"}
+	fams = append(fams, family{"invisible-prefix", len(prefixes) * (len(cp) + len(gen.ExprCorpus)), func(i int, r *fw.Rand) parseInput {
+		p := prefixes[i%len(prefixes)]
+		i /= len(prefixes)
+		if i < len(cp) {
+			return parseInput{Entry: "file", Family: "invisible-prefix", Text: p + cp[i]}
+		}
+		return parseInput{Entry: "expr", Family: "invisible-prefix", Text: p + gen.ExprCorpus[i-len(cp)]}
+	}})
 	// (8) quoted attribute expressions (they are parsed by a parser of their own): every token and every pair of tokens inside
 	// each attribute that holds an expression
 	quoted := []string{"{call .t data=\"%s\" /}", "{call .t}{param key=\"p\" value=\"%s\" /}{/call}", "{css %s, base}", "{call .t data=\"%s\"}{param p: 1 /}{/call}", "{call name=\".t\" data=\"%s\" /}"}
